@@ -85,3 +85,64 @@ Qed.
 Corollary execute_no_input feat instr st st' :
   execute feat instr st = Running st' -> s_inp st = [] -> s_inp st' = [].
 Proof. intros H E. destruct (execute_input feat instr st st' H) as [K|K]; rewrite K, E; reflexivity. Qed.
+
+(* ------------------------------------------------------------------ *)
+(** * Exactly which instructions consume input *)
+
+Ltac same_handler H :=
+  cbv zeta in H; repeat match type of H with context [if ?c then _ else _] => destruct c end;
+  inversion H; subst; reflexivity.
+
+Lemma h_simple_same instr st st' :
+  (h_br instr st = Running st' \/ h_add instr st = Running st' \/ h_and instr st = Running st' \/
+   h_ld instr st = Running st' \/ h_ldi instr st = Running st' \/ h_ldr instr st = Running st' \/
+   h_lea instr st = Running st' \/ h_not instr st = Running st' \/ h_st instr st = Running st' \/
+   h_sti instr st = Running st' \/ h_str instr st = Running st' \/ h_jmp instr st = Running st' \/
+   h_jsr instr st = Running st' \/ h_rti instr st = Running st') -> s_inp st' = s_inp st.
+Proof.
+  unfold h_br, h_add, h_and, h_ld, h_ldi, h_ldr, h_lea, h_not, h_st, h_sti, h_str, h_jmp, h_jsr, h_rti.
+  intros H. repeat (destruct H as [H|H]; [same_handler H|]). discriminate.
+Qed.
+
+Lemma h_stack_same feat instr st st' : h_stack feat instr st = Running st' -> s_inp st' = s_inp st.
+Proof. unfold h_stack, pop_val. intros H. same_handler H. Qed.
+
+Definition reads_input (v : N) : bool := (v =? 32) || (v =? 35).
+
+Lemma h_trap_exact instr st st' : h_trap instr st = Running st' ->
+  if reads_input (band instr 255)
+  then s_inp st' = tl (s_inp st) /\ s_inp st <> []
+  else s_inp st' = s_inp st.
+Proof.
+  unfold h_trap, reads_input. cbv zeta. generalize LOOP_FOREVER. intros big. generalize (band instr 255). intros v H.
+  destruct v as [|p]; [discriminate|].
+  repeat (match type of H with context [match ?q with _ => _ end] => is_var q; destruct q; try discriminate end).
+  all: cbn [N.eqb Pos.eqb orb].
+  all: try (inversion H; subst; rewrite ?inp_emit_list, ?inp_emit; reflexivity).
+  all: try (unfold read_char in H; destruct (s_inp st) as [|b rest] eqn:E; [discriminate|];
+            inversion H; subst; split; [cbn; rewrite ?inp_emit; reflexivity|discriminate]).
+  all: try (match type of H with context [puts_loop ?f ?s ?a] => destruct (puts_loop f s a) eqn:E; [|discriminate];
+              inversion H; subst; exact (inp_puts_loop _ _ _ _ E) end).
+  all: try (match type of H with context [putsp_loop ?f ?s ?a] => destruct (putsp_loop f s a) eqn:E; [|discriminate];
+              inversion H; subst; exact (inp_putsp_loop _ _ _ _ E) end).
+Qed.
+
+(** GETC (x20) and IN (x23) take exactly one byte — the first — and need one to be there; every other
+    instruction leaves the input alone. *)
+Theorem execute_input_exact feat instr st st' : execute feat instr st = Running st' ->
+  if (15 <=? shr instr 12) && reads_input (band instr 255)
+  then s_inp st' = tl (s_inp st) /\ s_inp st <> []
+  else s_inp st' = s_inp st.
+Proof.
+  unfold execute. generalize (shr instr 12). intros op H.
+  destruct op as [|p]; [cbn [N.leb N.compare andb]; apply (h_simple_same instr); tauto|].
+  repeat (match type of H with context [match ?q with _ => _ end] => is_var q; destruct q end).
+  all: first
+    [ (* a trap *)
+      apply h_trap_exact in H;
+      match goal with |- context [?a <=? ?b] => replace (a <=? b) with true by (symmetry; apply N.leb_le; lia) end;
+      cbn [andb]; exact H
+    | (* anything else *)
+      match goal with |- context [?a <=? ?b] => replace (a <=? b) with false by (symmetry; apply N.leb_gt; lia) end;
+      cbn [andb]; first [ apply h_stack_same in H; exact H | apply (h_simple_same instr); tauto ] ].
+Qed.
